@@ -12,10 +12,143 @@ import (
 )
 
 // session is one real edit session with its own reference model.
+// A session holds the real file and the reference model. Which of several lines for one key is the
+// "first" one depends on an order the documentation does not pin down: the order of the typed lists in
+// memory (which edits extend at the end while inserting the line somewhere in the file) or the order of
+// the lines in the file. Both readings are kept: models is a small set of candidate models, forked
+// before every operation into "order as it evolved" and "order of the file as it stands"; the real file
+// has to agree with at least one candidate at every check, candidates that disagree are dropped, and a
+// violation is reported (against the oldest surviving lineage) only when none is left.
 type session struct {
-	name  string
-	real  *realFile
-	model *mModel
+	name   string
+	real   *realFile
+	models []*mModel
+}
+
+const maxCandidates = 48
+
+func (m *mModel) orderKey() string {
+	var b strings.Builder
+	fmt.Fprintf(&b, "%s|%s|%s|%v|%v;", m.module, m.goV, m.toolchain, m.scalarTouched, m.scalarID)
+	for _, e := range m.entries {
+		fmt.Fprintf(&b, "%s#%d,%d,%v;", e.canon(), e.id, e.lead, e.touched)
+	}
+	return b.String()
+}
+
+// fileOrder is the order a reader of the file as it stands now would see (nil if it cannot be parsed
+// in its present, possibly not yet cleaned-up, state).
+func (s *session) fileOrder() *mModel {
+	p, err := parseReal(s.real.work, s.real.format())
+	if err != nil {
+		return nil
+	}
+	pm, _ := p.lists()
+	return pm
+}
+
+// hasDups: two entries share the key that "first"/"other" semantics look at. Only then can the order
+// of the entries influence what an operation does.
+func (m *mModel) hasDups() bool {
+	seen := map[string]bool{}
+	for _, e := range m.entries {
+		k := e.kind + "|" + e.a
+		if seen[k] {
+			return true
+		}
+		seen[k] = true
+	}
+	return false
+}
+
+// orderMatters: the outcome of o on m can depend on the order of m's entries.
+func (m *mModel) orderMatters(o mOp) bool {
+	count := func(kind string, match func(e *mEntry) bool) int {
+		n := 0
+		for i := range m.entries {
+			if m.entries[i].kind == kind && match(&m.entries[i]) {
+				n++
+			}
+		}
+		return n
+	}
+	byA := func(e *mEntry) bool { return e.a == o.a }
+	switch o.name {
+	case "AddRequire":
+		return count("require", byA) > 1
+	case "AddGodebug":
+		return count("godebug", byA) > 1
+	case "AddUse":
+		return count("use", byA) > 1
+	case "AddReplace":
+		return count("replace", byA) > 1
+	case "AddExclude":
+		return count("exclude", func(e *mEntry) bool { return e.a == o.a && e.b == o.b }) > 1
+	case "AddTool", "SortBlocks", "SetRequire", "SetRequireSeparateIndirect", "SetUse":
+		return m.hasDups()
+	}
+	return false
+}
+
+// fork adds, for every candidate, its twin whose entries are in file order.
+func (s *session) fork(res *core.Result, o mOp) {
+	dups := false
+	for _, m := range s.models {
+		dups = dups || m.orderMatters(o)
+	}
+	if !dups {
+		return
+	}
+	res.Probes["order-readings-forked"]++
+	fo := s.fileOrder()
+	if fo == nil {
+		return
+	}
+	seen := map[string]bool{}
+	for _, m := range s.models {
+		seen[m.orderKey()] = true
+	}
+	for _, m := range s.models[:len(s.models):len(s.models)] {
+		alt := m.clone()
+		adoptOrder(alt, fo)
+		if k := alt.orderKey(); !seen[k] {
+			seen[k] = true
+			if len(s.models) >= maxCandidates {
+				res.Probes["candidate-models-capped"]++
+				return
+			}
+			s.models = append(s.models, alt)
+		}
+	}
+}
+
+func (s *session) applyModel(o mOp) {
+	seen := map[string]bool{}
+	var out []*mModel
+	add := func(m *mModel) {
+		if k := m.orderKey(); !seen[k] && len(out) < maxCandidates {
+			seen[k] = true
+			out = append(out, m)
+		}
+	}
+	for _, m := range s.models {
+		var alt *mModel
+		switch o.name {
+		case "AddTool", "SortBlocks", "SetRequire", "SetRequireSeparateIndirect", "SetUse":
+			// these de-duplicate exclude/replace/tool lines as a side effect in the unchanged code; a
+			// reading in which they do not is kept as well
+			alt = m.clone()
+			alt.skipDedup = true
+			alt.apply(o)
+			alt.skipDedup = false
+		}
+		m.apply(o)
+		add(m)
+		if alt != nil {
+			add(alt)
+		}
+	}
+	s.models = out
 }
 
 // modCheck evaluates the oracles of C08 and C15 on a session that has just been cleaned up.
@@ -33,44 +166,25 @@ func modCheck(res *core.Result, prop string, s *session, when string, history []
 	parsed, _ := p.lists()
 	mem, zero := s.real.lists()
 	if prop == "C08" {
-		if d := diffLists(s.model.canonList(), parsed.canonList()); d != "" {
-			res.Fail("C08", "directives-equal-model", "the file's directives differ from the set/map model", "%s %s: (- model only, + file only) %s\nfile:\n%s\nhistory: %s", s.name, when, d, clipText(out), hist)
-			return p
-		}
-		// untargeted lines survive with their own comments and values
-		byID := map[int]mEntry{}
-		for _, e := range parsed.entries {
-			if e.id > 0 {
-				byID[e.id] = e
-			}
-		}
-		for _, e := range s.model.entries {
-			if e.id == 0 || e.touched {
+		var firstFail func()
+		var keep []*mModel
+		for _, m := range s.models {
+			if fail := c08Judge(m, p, parsed, s.name, when, out, hist); fail != nil {
+				if firstFail == nil {
+					firstFail = func() { fail(res) }
+				}
 				continue
 			}
-			l := findLineByID(p.syntax(), e.id)
-			pe, ok := byID[e.id]
-			switch {
-			case l == nil || !ok:
-				res.Fail("C08", "untargeted-line-survives", "a directive line that no operation targeted lost its end-of-line comment or disappeared", "%s %s: line #%d (%s) not found with its end-of-line comment\nfile:\n%s\nhistory: %s", s.name, when, e.id, e.canon(), clipText(out), hist)
-			case pe.canon() != e.canon():
-				res.Fail("C08", "untargeted-line-survives", "a directive line that no operation targeted changed", "%s %s: line #%d was %s and is now %s\nhistory: %s", s.name, when, e.id, e.canon(), pe.canon(), hist)
-			case e.kind == "require" && !e.indirect && lineMentionsIndirect(l):
-				res.Fail("C08", "untargeted-line-survives", "the end-of-line comment of a direct requirement still contains indirect-marker text", "%s %s: line #%d (%s) has end-of-line comment %q\nhistory: %s", s.name, when, e.id, e.canon(), suffixText(l), hist)
-			case !hasLeadComments(l, nil, e.id, e.lead):
-				res.Fail("C08", "untargeted-line-survives", "a directive line that no operation targeted lost a leading comment", "%s %s: line #%d (%s) lost one of its %d leading comments\nfile:\n%s\nhistory: %s", s.name, when, e.id, e.canon(), e.lead, clipText(out), hist)
-			}
-			if res.Violation != nil {
-				return p
-			}
+			keep = append(keep, m)
 		}
-		for _, k := range []string{"module", "go", "toolchain"} {
-			id := s.model.scalarID[k]
-			if id > 0 && !s.model.scalarTouched[k] && findLineByID(p.syntax(), id) == nil {
-				res.Fail("C08", "untargeted-line-survives", "an untargeted statement lost its end-of-line comment or disappeared", "%s %s: %s statement #%d\nfile:\n%s\nhistory: %s", s.name, when, k, id, clipText(out), hist)
-				return p
-			}
+		if len(keep) == 0 {
+			firstFail()
+			return p
 		}
+		if len(keep) < len(s.models) {
+			res.Probes["candidate-model-dropped"]++
+		}
+		s.models = keep
 	}
 	if prop == "C15" {
 		if len(zero) > 0 {
@@ -83,6 +197,59 @@ func modCheck(res *core.Result, prop string, s *session, when string, history []
 		}
 	}
 	return p
+}
+
+// c08Judge compares the strictly re-parsed file with one candidate model. It returns nil if they agree,
+// otherwise a function that records the violation.
+func c08Judge(model *mModel, p *realFile, parsed *mModel, name, when string, out []byte, hist string) func(res *core.Result) {
+	if d := diffLists(model.canonList(), parsed.canonList()); d != "" {
+		return func(res *core.Result) {
+			res.Fail("C08", "directives-equal-model", "the file's directives differ from the set/map model", "%s %s: (- model only, + file only) %s\nfile:\n%s\nhistory: %s", name, when, d, clipText(out), hist)
+		}
+	}
+	// untargeted lines survive with their own comments and values
+	byID := map[int]mEntry{}
+	for _, e := range parsed.entries {
+		if e.id > 0 {
+			byID[e.id] = e
+		}
+	}
+	for _, e := range model.entries {
+		if e.id == 0 || e.touched {
+			continue
+		}
+		e := e
+		l := findLineByID(p.syntax(), e.id)
+		pe, ok := byID[e.id]
+		switch {
+		case l == nil || !ok:
+			return func(res *core.Result) {
+				res.Fail("C08", "untargeted-line-survives", "a directive line that no operation targeted lost its end-of-line comment or disappeared", "%s %s: line #%d (%s) not found with its end-of-line comment\nfile:\n%s\nhistory: %s", name, when, e.id, e.canon(), clipText(out), hist)
+			}
+		case pe.canon() != e.canon():
+			return func(res *core.Result) {
+				res.Fail("C08", "untargeted-line-survives", "a directive line that no operation targeted changed", "%s %s: line #%d was %s and is now %s\nhistory: %s", name, when, e.id, e.canon(), pe.canon(), hist)
+			}
+		case e.kind == "require" && !e.indirect && lineMentionsIndirect(l):
+			return func(res *core.Result) {
+				res.Fail("C08", "untargeted-line-survives", "the end-of-line comment of a direct requirement still contains indirect-marker text", "%s %s: line #%d (%s) has end-of-line comment %q\nhistory: %s", name, when, e.id, e.canon(), suffixText(l), hist)
+			}
+		case !hasLeadComments(l, nil, e.id, e.lead):
+			return func(res *core.Result) {
+				res.Fail("C08", "untargeted-line-survives", "a directive line that no operation targeted lost a leading comment", "%s %s: line #%d (%s) lost one of its %d leading comments\nfile:\n%s\nhistory: %s", name, when, e.id, e.canon(), e.lead, clipText(out), hist)
+			}
+		}
+	}
+	for _, k := range []string{"module", "go", "toolchain"} {
+		k := k
+		id := model.scalarID[k]
+		if id > 0 && !model.scalarTouched[k] && findLineByID(p.syntax(), id) == nil {
+			return func(res *core.Result) {
+				res.Fail("C08", "untargeted-line-survives", "an untargeted statement lost its end-of-line comment or disappeared", "%s %s: %s statement #%d\nfile:\n%s\nhistory: %s", name, when, k, id, clipText(out), hist)
+			}
+		}
+	}
+	return nil
 }
 
 func clipText(b []byte) string {
@@ -137,8 +304,8 @@ func runModSession(src *choice.Src, prop string) *core.Result {
 		core.SetHarnessError(fmt.Sprintf("modsim: generator model and parse disagree: %s\n%s", diffLists(got.canonList(), model0.canonList()), text))
 		return res
 	}
-	A := &session{name: "session A (in memory)", real: ra, model: model0.clone()}
-	B := &session{name: "session B (re-opened at persistence points)", real: rb, model: model0.clone()}
+	A := &session{name: "session A (in memory)", real: ra, models: []*mModel{model0.clone()}}
+	B := &session{name: "session B (re-opened at persistence points)", real: rb, models: []*mModel{model0.clone()}}
 	nops := src.Range(1, 12)
 	if src.Bool(1, 4) {
 		nops = src.Range(5, 40)
@@ -160,9 +327,19 @@ func runModSession(src *choice.Src, prop string) *core.Result {
 				break
 			}
 			if pb != nil {
+				// a new process: the only order there is is the order of the text
 				B.real = pb
 				pm, _ := pb.lists()
-				adoptOrder(B.model, pm)
+				seen := map[string]bool{}
+				var out []*mModel
+				for _, m := range B.models {
+					adoptOrder(m, pm)
+					if k := m.orderKey(); !seen[k] {
+						seen[k] = true
+						out = append(out, m)
+					}
+				}
+				B.models = out
 			}
 			res.Steps++
 		}
@@ -185,13 +362,16 @@ func runModSession(src *choice.Src, prop string) *core.Result {
 		}
 		history = append(history, op.String())
 		for _, s := range []*session{A, B} {
+			if prop == "C08" {
+				s.fork(res, op)
+			}
 			if err := s.real.apply(op); err != nil {
 				if prop == "C08" {
 					res.Fail("C08", "operation-accepts-valid-arguments", "an edit operation failed or panicked on valid arguments", "%s: %s: %v\nhistory: %s", s.name, op, err, strings.Join(history, "; "))
 				}
 				break
 			}
-			s.model.apply(op)
+			s.applyModel(op)
 		}
 		res.Steps++
 	}
@@ -298,7 +478,9 @@ func c16Run(src *choice.Src) *core.Result {
 	r0.cleanup()
 	variants := [][]byte{outs[0], r0.format()}
 	for vi, out := range variants {
-		if c16Judge(res, work, op, []*mModel{model, memModel}[vi], pre, bytes0, out, []string{"from the re-parsed file", "on the in-memory session"}[vi]) {
+		// from the re-parsed file there is one order; on the in-memory session "first" may be read as first
+		// in the typed list or first in the file
+		if c16Judge(res, work, op, [][]*mModel{{model}, {memModel, model}}[vi], pre, bytes0, out, []string{"from the re-parsed file", "on the in-memory session"}[vi]) {
 			return res
 		}
 	}
@@ -309,7 +491,7 @@ func c16Run(src *choice.Src) *core.Result {
 }
 
 // c16Judge applies the postconditions of a bulk set to one output; it reports whether a violation was recorded.
-func c16Judge(res *core.Result, work bool, op mOp, model *mModel, pre *realFile, bytes0, out []byte, how string) bool {
+func c16Judge(res *core.Result, work bool, op mOp, models []*mModel, pre *realFile, bytes0, out []byte, how string) bool {
 	p, err := parseReal(work, out)
 	if err != nil {
 		res.Fail("C16", "output-parses-strictly", "the file does not parse after a bulk set", "%s (%s): %v\nfile before:\n%s\nfile after:\n%s", op, how, firstLine(err.Error()), clipText(bytes0), clipText(out))
@@ -343,25 +525,55 @@ func c16Judge(res *core.Result, work bool, op mOp, model *mModel, pre *realFile,
 	for _, r := range op.reqs {
 		requested[r.a] = true
 	}
-	seen := map[string]bool{}
-	for _, e := range model.entries {
-		if e.kind != kind || !requested[e.a] || seen[e.a] {
-			continue
+	var paths []string
+	firsts := map[string][]mEntry{} // per kept path: the first line under each reading of "first"
+	for mi, model := range models {
+		seen := map[string]bool{}
+		for _, e := range model.entries {
+			if e.kind != kind || !requested[e.a] || seen[e.a] {
+				continue
+			}
+			seen[e.a] = true
+			if mi == 0 {
+				paths = append(paths, e.a)
+			}
+			firsts[e.a] = append(firsts[e.a], e)
 		}
-		seen[e.a] = true
-		if e.id == 0 {
-			continue
+	}
+	for _, path := range paths {
+		var fail func()
+		ok := false
+		for _, e := range firsts[path] {
+			e := e
+			if e.id == 0 {
+				ok = true
+				break
+			}
+			l := findLineByID(p.syntax(), e.id)
+			if l == nil {
+				if fail == nil {
+					fail = func() {
+						res.Fail("C16", "kept-line-keeps-comments", "a kept line lost its end-of-line comment", "%s (%s): the first line for %s (#%d) no longer carries its end-of-line comment\nfile before:\n%s\nfile after:\n%s", op, how, e.a, e.id, clipText(bytes0), clipText(out))
+					}
+				}
+				continue
+			}
+			if !hasLeadComments(l, nil, e.id, e.lead) {
+				if fail == nil {
+					fail = func() {
+						res.Fail("C16", "kept-line-keeps-comments", "a kept line lost a leading comment", "%s: the first line for %s (#%d) lost one of its %d leading comments\nfile before:\n%s\nfile after:\n%s", op, e.a, e.id, e.lead, clipText(bytes0), clipText(out))
+					}
+				}
+				continue
+			}
+			ok = true
+			res.Probes["kept-line-with-comments-checked"]++
+			break
 		}
-		l := findLineByID(p.syntax(), e.id)
-		if l == nil {
-			res.Fail("C16", "kept-line-keeps-comments", "a kept line lost its end-of-line comment", "%s (%s): the first line for %s (#%d) no longer carries its end-of-line comment\nfile before:\n%s\nfile after:\n%s", op, how, e.a, e.id, clipText(bytes0), clipText(out))
+		if !ok && fail != nil {
+			fail()
 			return true
 		}
-		if !hasLeadComments(l, nil, e.id, e.lead) {
-			res.Fail("C16", "kept-line-keeps-comments", "a kept line lost a leading comment", "%s: the first line for %s (#%d) lost one of its %d leading comments\nfile before:\n%s\nfile after:\n%s", op, e.a, e.id, e.lead, clipText(bytes0), clipText(out))
-			return true
-		}
-		res.Probes["kept-line-with-comments-checked"]++
 	}
 	// the one-uncommented-block clause
 	if op.name == "SetRequireSeparateIndirect" && oneUncommentedRequire(pre.syntax()) {
